@@ -3,6 +3,8 @@ import json
 
 
 def run(ctx):
+    if ctx.replay:
+        return rerun(ctx)
     # 1. exhaustive model check: all runs of <= MaxOps writes/reads (both directions) with one attack
     maxops = ctx.pick(4, 6)
     r = ctx.model_check("net", "MC_SecureChannel", "MC_SecureChannel.cfg", constants={"MaxOps": maxops},
@@ -18,9 +20,6 @@ def run(ctx):
                            constants={"MaxOps": wl, "Depth": wl},
                            simulate="num=%d" % ctx.pick(1500, 15000), depth=wl + 1, seed=ctx.seed, timeout=1500)
     allb = bs + walks
-    if ctx.replay:
-        d = json.load(open(ctx.replay))["detail"]
-        allb = [{"behaviour": d["behaviour"], "sub": d["sub"], "suite": d["suite"]}]
     inp = ctx.path("in", "behaviours.ndjson")
     with open(inp, "w") as fh:
         for b in allb:
@@ -28,9 +27,8 @@ def run(ctx):
     # 3. replay into pairs of network.SecureConn (all three AEAD suites) over an in-memory transport
     recs = ctx.go_replay("securechan", "TestReplay", inp, shards=ctx.pick(2, 4), timeout=ctx.pick(600, 1800))
     ctx.absorb(recs)
-    if not ctx.replay:
-        for b in (walks[:2] + bs[-1:]):
-            ctx.sample([{k: s[k] for k in ("op", "d", "n", "i", "kind", "res", "off")} for s in b])
+    for b in (walks[:2] + bs[-1:]):
+        ctx.sample([{k: s[k] for k in ("op", "d", "n", "i", "kind", "res", "off")} for s in b])
     return ctx.finish(
         rule="a behaviour = one TLC-generated sequence of Write(direction, size), Read(direction, buffer size) and "
              "at most one transport attack (all of depth %d by BFS + %d random walks of depth %d), each executed "
@@ -41,3 +39,13 @@ def run(ctx):
                      "the transport keeps each conn.Write as one unit and returns arbitrary partial reads",
                      "the two unused bytes of the 4-byte frame prefix are not attacked (they are ignored by the reader)",
                      "a Read is issued only when data is in transit (a real Read would block otherwise)"])
+
+
+def rerun(ctx):
+    """Re-execute exactly the behaviour (and concretization) stored in a replay file."""
+    d = json.load(open(ctx.replay))["detail"]
+    inp = ctx.path("in", "behaviours.ndjson")
+    with open(inp, "w") as fh:
+        fh.write(json.dumps({"behaviour": d["behaviour"], "sub": d["sub"], "suite": d["suite"]}) + "\n")
+    ctx.absorb(ctx.go_replay("securechan", "TestReplay", inp))
+    return ctx.finish(rule="re-execution of one stored behaviour", assumptions=["replay of %s" % ctx.replay])
